@@ -90,6 +90,16 @@ func errorMessage(err error) string {
 	return err.Error()
 }
 
+// endsWithLineContinuation reports whether the line ends with a
+// backslash which is not itself escaped by a backslash
+func endsWithLineContinuation(line string) bool {
+	n := 0
+	for i := len(line) - 1; i >= 0 && line[i] == '\\'; i-- {
+		n++
+	}
+	return n%2 == 1
+}
+
 // Run runs a single line of the REPL
 func (r *REPL) Run(line string) error {
 	if r.continuation {
@@ -112,7 +122,10 @@ func (r *REPL) Run(line string) error {
 		// Look at the message of the error only - err.Error() also
 		// holds the source line, which may contain anything
 		errText := errorMessage(err)
-		if strings.Contains(errText, "unexpected EOF while parsing") || strings.Contains(errText, "EOF while scanning triple-quoted string literal") {
+		// A string literal left open at the end of a line which ends
+		// with a backslash carries on on the next line
+		stringContinues := !r.continuation && strings.Contains(errText, "EOL while scanning string literal") && endsWithLineContinuation(line)
+		if stringContinues || strings.Contains(errText, "unexpected EOF while parsing") || strings.Contains(errText, "EOF while scanning triple-quoted string literal") {
 			stripped := strings.TrimSpace(toCompile)
 			isComment := len(stripped) > 0 && stripped[0] == '#'
 			if !isComment {
